@@ -886,7 +886,8 @@ namespace jsonpointer {
     {
         if (location.empty())
         {
-            root = std::forward<T>(value);
+            // the whole document is never absent (this also lets jsonpatch record the old root for rollback)
+            ec = jsonpointer_errc::key_already_exists;
             return;
         }
         Json* current = std::addressof(root);
